@@ -402,3 +402,20 @@ Theorem C17_no_shared_mutable_state :
   forallb (fun v => mem_str (snd v) allowed_statics) mutable_statics = true.
 Proof. vm_compute. reflexivity. Qed.
 Print Assumptions C17_no_shared_mutable_state.
+
+(* no caller-controlled string is ever a FORMAT: Gen/C17_Tables.v lists every call of a printf-family function
+   (printf/fprintf/sprintf/snprintf/v*printf/syslog, PyErr_Format, PyUnicode_FromFormat, PyBytes_FromFormat, PyOS_snprintf ...)
+   and of every printf-like macro (psutil_debug: found by the translator as a macro handing __VA_ARGS__ on as FORMAT) in the
+   .c and .h files compiled on Linux, with the kind of its FORMAT argument.  Every FORMAT is a string literal (kind 0),
+   except inside the body of a listed printf-like macro where it is the macro's own parameter (kind 1) -- and the calls of
+   that macro are rows of the same table, so their FORMAT is a literal too.  The table is the whole source, so the finite
+   check is the proof; the table is not empty and the debug macro is among the checked callees. *)
+Theorem C17_format_arguments_literal :
+  forallb (fun c => match c with
+                    | (_, _, _, k, m) => Z.eqb k 0 || (Z.eqb k 1 && mem_str m printf_like_macros)
+                    end) format_calls = true
+  /\ forallb (fun m => existsb (fun c => match c with (_, _, callee, _, _) => String.eqb callee m end) format_calls)
+       printf_like_macros = true
+  /\ mem_str "psutil_debug" printf_like_macros = true.
+Proof. vm_compute. repeat split; reflexivity. Qed.
+Print Assumptions C17_format_arguments_literal.
